@@ -43,7 +43,10 @@ def main():
             bad = [(o.name[:70], o.status) for o in ded.obligations if o.status != 'proved' and o.kind not in ('cover', 'must-fail')]
             refuted = [b for b in bad if b[1] == 'refuted']
             tag = 'KILLED(refuted)' if refuted else 'demoted(unknown)' if bad else 'SURVIVED'
-            survivors += 0 if bad else 1
+            if not bad and e.get('expect') == 'survive':
+                tag = 'survived(expected: %s)' % e.get('note', '')[:60]
+            else:
+                survivors += 0 if bad else 1
             print('%-17s %-26s %-52r %5.1fs %s' % (tag, e['file'].split('/')[-1], e['new'][:50], time.time() - t, (refuted or bad)[:2]))
     print('survivors:', survivors)
     return 1 if survivors else 0
